@@ -20,7 +20,7 @@ CHECKS = {
  "C19": dict(level="other", design="DESIGN 5/C19",
    technique="z3 decision of signature inclusion over a symbolic call form for every binding spec; witnesses replayed with Signature.bind",
    text="For each of the ~500 binding specs the original and the installed substitute are read from the live objects; Python binding rules are encoded in z3 over (npos, keyword-set, fresh keyword); accepts(orig) & ~accepts(substitute) sat = a concrete valid call the tracing-time substitute rejects.",
-   note="Decides argument binding only; whether a bound argument is then honoured or ignored is not decided by this part. Installed library versions only."),
+   note="Part 1 decides argument binding only. Part 2 runs call forms through the C01 query (export raises, or the model is proved equivalent): one non-default optional argument (positional and keyword), pairs, and ALL optional arguments non-default at once with the combination validated by calling the un-patched library function; an argument silently ignored or re-bound is a value/shape difference. Installed library versions only."),
 }
 
 CHECKS.update({
@@ -47,7 +47,7 @@ CHECKS.update({
  "C16": dict(level="translation_validation", design="DESIGN 5/C16",
    technique="fault injection at every optimizer pass boundary + translation validation (z3) of the returned model; `raises or proved equivalent` for unsupported constructs",
    text="For every pass index k the real optimize_graph runs with pass k raising (entry k of _OPTIMIZER_PASSES replaced); under the default policy the returned, partially optimized model must be equivalent to the callable for all inputs (C01 query); under the strict setting the exception must propagate. Unsupported constructs (unregistered primitive, 3-way switch, reverse scan, dynamic fori bounds, dim expression without origin, ...) at top level, inside cond/while/scan bodies and inside @onnx_function bodies must raise or be proved equivalent.",
-   note="Crash points = pass boundaries; 15 programs x 18 passes quick."),
+   note="Crash points = pass boundaries; 15 programs x 18 passes quick. The model returned after an aborted pass must also stay well-formed (onnx.checker full_check + strict inference) whenever the complete export is: a pass stopped half way may leave annotations that contradict the nodes while values stay right."),
 })
 
 CHECKS["C13"] = dict(level="other", design="DESIGN 5/C13", engine="E1",
@@ -67,7 +67,7 @@ CHECKS["C09"] = dict(level="translation_validation", design="DESIGN 5/C09",
 CHECKS["C11"] = dict(level="translation_validation", design="DESIGN 5/C11",
    technique="opset-versioned encodability against onnx.defs + z3 equivalence (C01 query) of the export at each target opset",
    text="For each target opset (quick 21/23/26, thorough 21..27) and each program the model must declare that opset and every node, recursively and in function bodies, must resolve to an operator definition existing at that opset with the attributes and input arity used (a refusal is reported only when onnx.checker rejects the model too); the model is then proved equivalent to the JAX jaxpr for all inputs with the opset-versioned evaluator. An explicit export error is accepted. Value differences present at every opset belong to C01 and are not repeated.",
-   note="Opset axis enumerated (six/seven values); opset 27 cannot be loaded by the installed ORT: structural + symbolic only.")
+   note="Opset axis enumerated (six/seven values); opset 27 cannot be loaded by the installed ORT: structural + symbolic only. A schema-only sweep covers one testcase of every registered component (thorough: all) and family A10 puts every opset-gated lowering inside cond/fori/scan/while/function bodies, where the nested builder must see the requested opset.")
 
 CHECKS["C03"] = dict(level="translation_validation", design="DESIGN 5/C03",
    technique="shape mode: z3 decides every operator's shape/type obligation for all bindings of named dimensions; strict encodability predicates replayed with onnx.checker / strict inference / ORT load",
